@@ -95,6 +95,19 @@ M = [
       old="__FROM_PATCH__", new="", expect="c15.forward|int::shr::<impl num_traits::WrappingShr for int::Int<_>>::wrapping_shr", patch="/verif/seeded/C15b/patch.diff"),
  dict(name="der_drop_first_octet", prop="C18", file="src/uint/encoding/der.rs",
       old="__FROM_PATCH__", new="", expect="capguard.truncate|uint::encoding::der", patch="/verif/seeded/C18b/patch.diff"),
+ # --- C04 (carry discipline outside src/modular); rule positive controls
+ dict(name="add_mod_carry_rebound", prop="C04", file="src/uint/add_mod.rs",
+      old="        let (w, carry) = self.adc(rhs, Limb::ZERO);", new="        let (w, _carry) = self.adc(rhs, Limb::ZERO);\n        let carry = Limb::ZERO;",
+      expect="carry|uint::add_mod::<impl uint::Uint<_>>::add_mod|adc"),
+ dict(name="boxed_adc_assign_carry_not_chained", prop="C04", file="src/uint/boxed/add.rs",
+      old="            self.limbs[i] = limb;\n            carry = b;", new="            self.limbs[i] = limb;",
+      expect="carry|uint::boxed::add::<impl uint::boxed::BoxedUint>::adc_assign|adc"),
+ dict(name="boxed_monty_double_shl1_carry", prop="C08", file="src/modular/boxed_monty_form/add.rs",
+      old="__FROM_PATCH__", new="", expect="carry|modular::boxed_monty_form::add::<impl modular::boxed_monty_form::BoxedMontyForm>::double|shl1_assign", patch="/verif/seeded/C08d/patch.diff"),
+ dict(name="from_le_slice_rounded_precision", prop="C16", file="src/uint/boxed/encoding.rs",
+      old="__FROM_PATCH__", new="", expect="c16.precguard|uint::boxed::encoding::<impl uint::boxed::BoxedUint>::from_le_slice", patch="/verif/seeded/C16c/patch.diff"),
+ dict(name="int_gcd_vartime_raw_bits", prop="C15", file="src/int/gcd.rs",
+      old="__FROM_PATCH__", new="", expect="c15.sibling|int::gcd::<impl traits::Gcd for int::Int<_>>::gcd_vartime", patch="/verif/seeded/C15c/patch.diff"),
  # --- C18
  dict(name="der_saturating_sub", prop="C18", file="src/uint/encoding/der.rs",
       old="        let offset = array\n            .len()\n            .checked_sub(bytes.len().try_into()?)\n            .ok_or(Tag::Integer.length_error())?;\n",
